@@ -8,6 +8,10 @@ DEST = {  # where the demonstration goes in the tree and how it is run
  "C11": ("vhost-user-backend/src/{demo} (+ demo_wiring.diff on lib.rs)", "cargo test -p vhost-user-backend --offline --lib {stem}"),
  "C15": ("vhost-user-backend/src/{demo} (+ demo_wiring.diff on lib.rs)", "cargo test -p vhost-user-backend --offline --lib {stem}"),
  "C17": ("vhost-user-backend/tests/{demo}", "cargo test -p vhost-user-backend --offline --test {stem}"),
+ "C06": ("vhost-user-backend/tests/{demo}", "cargo test -p vhost-user-backend --offline --test {stem}"),
+ "C12": ("vhost-user-backend/tests/{demo}", "cargo test -p vhost-user-backend --offline --test {stem}"),
+ "C13": ("vhost-user-backend/tests/{demo}", "cargo test -p vhost-user-backend --offline --test {stem}"),
+ "C14": ("vhost-user-backend/tests/{demo}", "cargo test -p vhost-user-backend --offline --test {stem}"),
  "C19": ("vhost/tests/{demo}", "cargo test -p vhost --features vhost-kern,vhost-vdpa,vhost-net,vhost-vsock --offline --test {stem}"),
 }
 DEFAULT = ("vhost/tests/{demo}", "cargo test -p vhost --features vhost-user-frontend,vhost-user-backend --offline --test {stem}")
